@@ -32,6 +32,7 @@ from .common import (
 )
 from .compat import get_errno, mem_rss, send_offset
 from .einfo import ExceptionInfo
+from .reduction import ForkingPickler
 from .dummy import DummyProcess
 from .exceptions import (
     CoroStop,
@@ -318,12 +319,28 @@ class Worker:
 
         if sys.platform != 'win32':
             try:
-                self.outq.put((DEATH, (pid, exitcode)))
+                self._put_death(pid, exitcode)
                 time.sleep(1)
             finally:
                 os._exit(exitcode)
         else:
             os._exit(exitcode)
+
+    def _put_death(self, pid, exitcode, timeout=1.0):
+        # Never wait forever for the write lock of the result queue on the
+        # way out: the lock is lost if a process was killed while holding
+        # it, or if a signal made this process leave send_payload() between
+        # taking the lock and entering the with block.
+        outq = self.outq
+        wlock = getattr(outq, '_wlock', None)
+        if wlock is None:
+            return outq.put((DEATH, (pid, exitcode)))
+        if wlock.acquire(True, timeout):
+            try:
+                outq._writer.send_bytes(
+                    ForkingPickler.dumps((DEATH, (pid, exitcode))))
+            finally:
+                wlock.release()
 
     def on_loop_start(self, pid):
         pass
